@@ -304,7 +304,9 @@ fn run_huge_zst(ctx: &mut Ctx) {
                 continue;
             }
             let dim = if row { r } else { c };
-            let idxs: Vec<usize> = if op.starts_with("pop") { vec![dim - 1] } else { vec![0, 1.min(dim - 1), dim - 1, dim, usize::MAX] };
+            // only the LAST line (and out-of-range indices): removing an inner line of such an array may
+            // legitimately take time proportional to the huge dimension in a different implementation
+            let idxs: Vec<usize> = if op.starts_with("pop") { vec![dim - 1] } else { vec![dim - 1, dim, usize::MAX] };
             for i in idxs {
                 for take in 0..3usize {
                     ctx.case(
@@ -385,7 +387,11 @@ impl Prop for C07P {
                 v.push(format!("{} {}x{}", tag, c, r));
             }
         }
-        v.push("hugezst".into());
+        if tier == Tier::Thorough {
+            // arrays of () with close to usize::MAX cells: thorough tier only, because they assume that
+            // appending / removing the last line does not take time proportional to the cell count
+            v.push("hugezst".into());
+        }
         v
     }
     fn run_unit(&self, unit: &str, ctx: &mut Ctx) {
@@ -406,7 +412,7 @@ impl Prop for C07P {
         true
     }
     fn rule(&self) -> String {
-        "(arrays of () with usize::MAX, MAX-1, MAX/3 x 3, ... cells are additionally run through every removal whose work is proportional to the small dimension) every shape (0..=N)^2 x {remove_row(i), remove_col(i) : i in 0..=dim} + pop_row + pop_col (also on the empty array) x element type {u32, Tracked} x {exact, spare} capacity x EVERY sequence over {next, next_back} of length 0..=len+1 (all interleavings, including one call past exhaustion) plus every sequence up to depth 3 (thorough: 4) over the extended alphabet {next, next_back, nth(1), nth_back(1), nth(2), nth_back(len)} with every prefix closed by count / last / fold / rfold / for_each / rev-then-forward (the adaptors skip, step_by and rev are built on these), with len() and size_hint() observed after every call, then the drain is dropped. \
+        "(arrays of () with usize::MAX, MAX-1, MAX/3 x 3, ... cells are additionally run through the removal of their last row / column and through out-of-range removals) every shape (0..=N)^2 x {remove_row(i), remove_col(i) : i in 0..=dim} + pop_row + pop_col (also on the empty array) x element type {u32, Tracked} x {exact, spare} capacity x EVERY sequence over {next, next_back} of length 0..=len+1 (all interleavings, including one call past exhaustion) plus every sequence up to depth 3 (thorough: 4) over the extended alphabet {next, next_back, nth(1), nth_back(1), nth(2), nth_back(len)} with every prefix closed by count / last / fold / rfold / for_each / rev-then-forward (the adaptors skip, step_by and rev are built on these), with len() and size_hint() observed after every call, then the drain is dropped. \
          Oracle: each call's result equals the ideal double-ended sequence of the removed line (by label and by element identity); len()/size_hint() exact at every step; after the drop the array equals the model without that line (same elements, same relative positions), (0,0) if it was the last line; ledger: yielded elements stay alive while held, the rest of the line is dropped exactly once, nothing else; out-of-range index panics and leaves the array untouched; pop on empty returns None; guard allocator clean. \
          states = distinct (shape, op, index, front/back cursor) positions of the ideal sequence reached; transitions = drain calls; traces_validated_against_impl = drain lifetimes executed on the real code."
             .into()
